@@ -149,7 +149,7 @@ func (x *Exec) zeroVal(t types.Type) Val {
 		return PtrVal{Nil: o.True()}
 	case *types.Slice:
 		if isByteSlice(t) {
-			return SliceVal{Reg: o.Int(0), Off: o.Idx(0), Len: o.Idx(0), Cap: o.Idx(0), Elem: u.Elem()}
+			return SliceVal{Reg: o.Int(0), Off: o.Idx(0), Len: o.Idx(0), Cap: o.Idx(0), Elem: u.Elem(), Cat: []StrVal{}}
 		}
 		if isByteSlice(u.Elem()) {
 			return SubmatchVal{Matched: o.False()}
@@ -429,6 +429,9 @@ func (x *Exec) writePtr(st *State, p PtrVal, nv Val) {
 	if p.Slice != nil {
 		arr := o.Select(st.H, p.Slice.Reg)
 		st.H = o.Store(st.H, p.Slice.Reg, o.Store(arr, o.IdxAdd(p.Slice.Off, p.Idx), nv.(*Term)))
+		if !p.LocalArr {
+			x.catDirty = true // an in-place store: concatenation descriptions of slices are no longer trusted
+		}
 		return
 	}
 	if p.Obj == nil {
@@ -620,6 +623,14 @@ func (x *Exec) seqEq(a, b StrVal) *Term {
 		}
 		return o.And(cs...)
 	}
+	if ba := o.Bounds(a.Len); !o.M.BV && ba.hi != nil && ba.hi.IsInt64() && ba.hi.Int64() <= 32 {
+		cs := []*Term{o.Eq(a.Len, b.Len)}
+		for i := int64(0); i < ba.hi.Int64(); i++ {
+			cs = append(cs, o.Implies(o.IdxLt(o.Idx(i), a.Len),
+				o.Eq(o.SelByte(a.Arr, o.IdxAdd(a.Off, o.Idx(i))), o.SelByte(b.Arr, o.IdxAdd(b.Off, o.Idx(i))))))
+		}
+		return o.And(cs...)
+	}
 	i := o.BoundVar("i", o.IdxSort())
 	body := o.Implies(o.And(o.IdxLe(o.Idx(0), i), o.IdxLt(i, a.Len)),
 		o.Eq(o.Select(a.Arr, o.IdxAdd(a.Off, i)), o.Select(b.Arr, o.IdxAdd(b.Off, i))))
@@ -629,6 +640,28 @@ func (x *Exec) seqEq(a, b StrVal) *Term {
 // seqCatEq: v == p0 ++ p1 ++ ...
 func (x *Exec) seqCatEq(st *State, v Val, c SeqCat) *Term {
 	o := x.o
+	if sl, ok := v.(SliceVal); ok && sl.Cat != nil && !x.catDirty && x.catGoal {
+		// the slice was built by appends only: compare its parts with the specification's parts one by one
+		// (a sufficient condition for equality; only used for goals in positive position)
+		nonEmpty := func(ps []StrVal) []StrVal {
+			var out []StrVal
+			for _, p := range ps {
+				if n, ok := p.Len.ConstInt64(); ok && n == 0 {
+					continue
+				}
+				out = append(out, p)
+			}
+			return out
+		}
+		a, b := nonEmpty(sl.Cat), nonEmpty(c.Parts)
+		if len(a) == len(b) {
+			var cs []*Term
+			for i := range a {
+				cs = append(cs, x.seqEq(a[i], b[i]))
+			}
+			return o.And(cs...)
+		}
+	}
 	sv := x.seqView(st, v)
 	total := o.Idx(0)
 	var cs []*Term
@@ -641,6 +674,14 @@ func (x *Exec) seqCatEq(st *State, v Val, c SeqCat) *Term {
 			for i := int64(0); i < n; i++ {
 				cs = append(cs, o.Eq(o.SelByte(part.Arr, o.IdxAdd(part.Off, o.Idx(i))), o.SelByte(p.Arr, o.IdxAdd(p.Off, o.Idx(i)))))
 			}
+		} else if b := o.Bounds(p.Len); !o.M.BV && b.hi != nil && b.hi.IsInt64() && b.hi.Int64() <= 32 {
+			// bounded length: guarded element-wise equalities
+			var es []*Term
+			for i := int64(0); i < b.hi.Int64(); i++ {
+				es = append(es, o.Implies(o.IdxLt(o.Idx(i), p.Len),
+					o.Eq(o.SelByte(part.Arr, o.IdxAdd(part.Off, o.Idx(i))), o.SelByte(p.Arr, o.IdxAdd(p.Off, o.Idx(i))))))
+			}
+			cs = append(cs, o.And(es...))
 		} else {
 			i := o.BoundVar("i", o.IdxSort())
 			body := o.Implies(o.And(o.IdxLe(o.Idx(0), i), o.IdxLt(i, p.Len)),
@@ -664,8 +705,7 @@ func (x *Exec) step(st *State, ins ssa.Instruction) {
 		et := t.Type().(*types.Pointer).Elem()
 		if at, ok := et.Underlying().(*types.Array); ok && isByteElem(at.Elem()) {
 			// byte arrays live in the byte heap so that they can be sliced
-			reg := st.Alloc
-			st.Alloc = o.Add(st.Alloc, o.Int(1))
+			reg := x.newRegion(st)
 			st.H = o.Store(st.H, reg, o.ConstArray(o.ByteArr(), o.ConstI(tyByte, 0)))
 			obj := x.newObject("local:"+t.Name(), et)
 			obj.Reg = reg
@@ -747,8 +787,7 @@ func (x *Exec) step(st *State, ins ssa.Instruction) {
 		ln := x.toIdx(x.operand(st, t.Len).(*Term), t.Len.Type())
 		cp := x.toIdx(x.operand(st, t.Cap).(*Term), t.Cap.Type())
 		x.oblige("makeslice", "", []string{"C18.nopanic"}, "0 <= len <= cap", st.Guard, o.And(o.IdxLe(o.Idx(0), ln), o.IdxLe(ln, cp)))
-		reg := st.Alloc
-		st.Alloc = o.Add(st.Alloc, o.Int(1))
+		reg := x.newRegion(st)
 		st.H = o.Store(st.H, reg, o.ConstArray(o.ByteArr(), o.ConstI(tyByte, 0)))
 		st.Regs[t] = SliceVal{Reg: reg, Off: o.Idx(0), Len: ln, Cap: cp, Elem: t.Type().Underlying().(*types.Slice).Elem()}
 	case *ssa.Call:
@@ -797,7 +836,7 @@ func (x *Exec) indexAddr(st *State, t *ssa.IndexAddr) Val {
 		if b.Obj != nil && b.Obj.Reg != nil {
 			x.boundsCheck(st, idx, o.Idx(b.Obj.N), "index")
 			s := SliceVal{Reg: b.Obj.Reg, Off: o.Idx(0), Len: o.Idx(b.Obj.N), Cap: o.Idx(b.Obj.N), Elem: typByte}
-			return PtrVal{Nil: o.False(), Slice: &s, Idx: idx}
+			return PtrVal{Nil: o.False(), Slice: &s, Idx: idx, LocalArr: true}
 		}
 		at := t.X.Type().Underlying().(*types.Pointer).Elem().Underlying().(*types.Array)
 		x.boundsCheck(st, idx, o.Idx(at.Len()), "index")
@@ -1156,10 +1195,9 @@ func (x *Exec) convert(st *State, xv ssa.Value, to types.Type) Val {
 	}
 	if isStringType(from) && isByteSlice(to) {
 		s := v.(StrVal)
-		reg := st.Alloc
-		st.Alloc = o.Add(st.Alloc, o.Int(1))
+		reg := x.newRegion(st)
 		st.H = o.Store(st.H, reg, s.Arr)
-		return SliceVal{Reg: reg, Off: s.Off, Len: s.Len, Cap: s.Len, Elem: to.Underlying().(*types.Slice).Elem()}
+		return SliceVal{Reg: reg, Off: s.Off, Len: s.Len, Cap: s.Len, Elem: to.Underlying().(*types.Slice).Elem(), Cat: []StrVal{s}}
 	}
 	if isByteSlice(from) && isStringType(to) {
 		return x.seqView(st, v)
